@@ -183,7 +183,7 @@ var holdInt struct {
 	rng *rand.Rand
 }
 
-func init() {
+func installHook() {
 	client.VerifHook = func(ev string, c *client.Conn, a ...interface{}) {
 		if ev != "hset.dispatch.begin" || c == nil {
 			return
@@ -237,6 +237,11 @@ func runSession(t *tlog, o sessionOpts, rng *rand.Rand) (stats map[string]int, e
 		}
 		return witness(k + 1)
 	}
+	// While a disconnect is in progress received lines may be discarded; what is dispatched after
+	// such a gap was applied to a tracker that never saw the discarded lines, so its witness says
+	// nothing any more: from the first gap on the witnesses are reported as trivially satisfied.
+	var gmu sync.Mutex
+	maxSeen, gapped := 0, false
 	mk := func(kind, h string) client.HandlerFunc {
 		return func(c *client.Conn, l *client.Line) {
 			k := index[l.Raw]
@@ -246,15 +251,24 @@ func runSession(t *tlog, o sessionOpts, rng *rand.Rand) (stats map[string]int, e
 			if k == 0 {
 				return
 			}
+			gmu.Lock()
+			if k > maxSeen+1 {
+				gapped = true
+			}
+			if k > maxSeen {
+				maxSeen = k
+			}
+			gp := gapped
+			gmu.Unlock()
 			wk := witness(k)
-			if !o.tracking {
+			if !o.tracking || gp {
 				wk = true
 			}
 			if ls[k].ipanic && kind == "fg" && h == "f1" {
 				// the line was dispatched: its built-in handler has panicked once
 				t.add(event{Ev: "ipanic"})
 			}
-			t.add(event{Ev: "enter", Kind: kind, H: h, K: k, Wk: wk, Wnext: kind != "bg" && next(k)})
+			t.add(event{Ev: "enter", Kind: kind, H: h, K: k, Wk: wk, Wnext: kind != "bg" && !gp && next(k)})
 			out := "ret"
 			if o.misbe {
 				switch x := rnd(40); {
@@ -271,7 +285,7 @@ func runSession(t *tlog, o sessionOpts, rng *rand.Rand) (stats map[string]int, e
 				stats["blocked"]++
 				<-forever
 			}
-			t.add(event{Ev: "exit", Kind: kind, H: h, K: k, Panic: out == "panic", Wnext: kind != "bg" && next(k)})
+			t.add(event{Ev: "exit", Kind: kind, H: h, K: k, Panic: out == "panic", Wnext: kind != "bg" && !gp && next(k)})
 			if out == "panic" {
 				panic(fmt.Sprintf("boom in %s/%s at line %d", kind, h, k))
 			}
@@ -355,6 +369,7 @@ func RunPhases(args []string) int {
 	lines := fs.Int("lines", 60, "test lines per session")
 	seed := fs.Int64("seed", 1, "seed")
 	fs.Parse(args)
+	installHook()
 	f, err := os.Create(*out)
 	if err != nil {
 		return 2
